@@ -224,6 +224,37 @@ def no_verdict(trace):
     return "SKIPPED" in trace
 
 
+def srv_probe(case, impl_trace, model_trace):
+    """continuations of a script on which implementation and model disagree, built from the IMPLEMENTATION's final snapshot:
+    every connection in progress is picked and finished (capacity is released, notices flow), the loop turns, one fresh client
+    connects to every listener, and the script settles (EPILOGUE).  With a live worker and a running, unpaused server every one
+    of those clients must then have been dispatched (c03_pred (b)) and the other predicates get states to judge."""
+    W, L, K, ops = parse_case(case)
+    snaps = parse_trace(impl_trace)
+    if not snaps or len(snaps) != len(ops) or any(sn.bad for sn in snaps):
+        return []
+    if first_fault_index(ops) != len(ops) or "S" in [e for o in ops for e in env_ops_of(o)]:
+        return []
+    last = snaps[-1]
+    if last.stopped or last.err:
+        return []
+    ids = [int(e.split(":")[1]) for o in ops for e in env_ops_of(o) if e[0] == "c"]
+    nxt = max(ids + [0]) + 1
+    rel = []
+    for w in last.workers:
+        if not w["open"]:
+            continue
+        rel += ["p%d" % w["g"]] * len(w["q"])
+        rel += ["f%d:%d" % (w["g"], c[0]) for c in w["q"] + w["p"]]
+    fresh = ["c%d:%d" % (t, nxt + t) for t in range(len(K))]
+    head = case.split("ops=", 1)[0]
+    out = []
+    for pre in ([], ["R"]) if last.paused else ([],):
+        out.append(head + "ops=" + " ".join(ops + pre + rel + ["T", "T"] + fresh + EPILOGUE))
+        out.append(head + "ops=" + " ".join(ops + pre + rel + ["T", "+600", "T"] + fresh + ["T"] + rel[:0] + EPILOGUE))
+    return out
+
+
 def make_stream(name, cases, pred, describe, nontrivial, guarded=None):
     """guarded: an additional predicate that counts only where the model's own trace satisfies it"""
     def monitor(c, i, m):
@@ -232,9 +263,11 @@ def make_stream(name, cases, pred, describe, nontrivial, guarded=None):
         if pred(c, i) is not None:
             return False
         return guarded is None or guarded(c, i) is None or guarded(c, m) is not None
-    return Stream(name, "srv", cases, compare=compare,
-                  monitor=monitor,
-                  nontrivial=nontrivial, shrink=shrink_ops, describe=describe, timeout=400)
+    st = Stream(name, "srv", cases, compare=compare,
+                monitor=monitor,
+                nontrivial=nontrivial, shrink=shrink_ops, describe=describe, timeout=400)
+    st.probe = srv_probe
+    return st
 
 
 def shrink_ops(case):
